@@ -42,9 +42,11 @@ func (c *consumer) Close() (err error) {
 
 		// cancel the context, so that get functions etc know
 		c.cancel()
+		verifPoint("cons.close.cancelled", c, c.offset)
 
 		// block until the offset is 0 (so we don't have uncommitted changes)
 		for c.offset != 0 {
+			verifPoint("cons.close.wait", c, c.offset)
 			c.cond.Wait()
 		}
 	})
@@ -72,6 +74,7 @@ func (c *consumer) Get(ctx context.Context) (interface{}, error) {
 	c.mutex.Lock()
 	defer c.mutex.Unlock()
 
+	verifPoint("cons.get.locked", c, c.offset)
 	ctx, cancel := context.WithCancel(ctx)
 	defer cancel()
 
@@ -91,6 +94,7 @@ func (c *consumer) Get(ctx context.Context) (interface{}, error) {
 	}
 
 	// it was async
+	verifPoint("cons.get.recv", c, c.offset)
 	result := <-out
 	if result.Error != nil {
 		return nil, result.Error
